@@ -163,18 +163,92 @@ package kv
 //@   loop 0 invariant forall i int :: 0 <= i && i < len(ks) ==> pmatch(pattern, ks[i].Key) && exists k string :: has(s.m, k) && s.m[k] == ks[i]
 //@   loop 0 invariant forall k string :: rangeSeen(0, k) ==> has(s.m, k)
 //@   loop 0 invariant forall k string :: rangeSeen(0, k) && pmatch(pattern, s.m[k].Key) ==> exists i int :: 0 <= i && i < len(ks) && ks[i] == s.m[k]
+//@ import slices "slices"
+//@ func slices.Sort[[]string,string]
+//@   assumed
+//@   params x
+//@   ensures forall i int :: 0 <= i && i < len(x) ==> exists j int :: 0 <= j && j < len(x) && x[i] == old(x[j])
+//@   ensures forall j int :: 0 <= j && j < len(x) ==> exists i int :: 0 <= i && i < len(x) && x[i] == old(x[j])
+//@   modifies elems(x)
+// GetAllValues: exactly the values of the stored pairs whose key matches the pattern (as a set)
 //@ func (*MapStore).GetAllValues
-//@   assumed
+//@   params s, pattern
+//@   results vs, err
 //@   requires s != nil
+//@   ensures [C13.globvalues.sound] err == nil ==> forall i int :: 0 <= i && i < len(vs) ==> exists k string :: has(s.m, k) && pmatch(pattern, s.m[k].Key) && s.m[k].Value == vs[i]
+//@   ensures [C13.globvalues.complete] err == nil ==> forall k string :: has(s.m, k) && pmatch(pattern, s.m[k].Key) ==> exists i int :: 0 <= i && i < len(vs) && vs[i] == s.m[k].Value
 //@   modifies nothing
-//@ func (*MapStore).List
+//@   loop 0 invariant fresh(vs) && -1 <= rangeindex && rangeindex < len(ks) && len(vs) == rangeindex + 1
+//@   loop 0 invariant forall j int :: 0 <= j && j <= rangeindex ==> vs[j] == ks[j].Value
+
+// directory listings. A path is compared by its terms: the elements of the cleaned path split at "/"
+// (what strings.Split returns is described by two uninterpreted functions: the number of pieces and
+// the j-th piece).
+//@ uninterp func nsplit(s string, sep string) int
+//@ uninterp func splitAt(s string, sep string, j int) string
+//@ uninterp func dirP(p string) string
+//@ uninterp func baseP(p string) string
+//@ uninterp func hasPfx(s string, p string) bool
+//@ pure func nT(p string) int = nsplit(cleanP(p), "/")
+//@ pure func tm(p string, j int) string = splitAt(cleanP(p), "/", j)
+//@ pure func termPrefix(a string, b string) bool = nT(b) >= nT(a) && forall j int :: 0 <= j && j < nT(a) ==> tm(a, j) == tm(b, j)
+// ListDir(fp): key k contributes the first directory below fp on its way - provided there is one
+//@ pure func inDir(fp string, k string) bool = hasPfx(k, fp) && termPrefix(fp, dirP(k)) && nT(dirP(k)) - nT(fp) >= 1
+//@ pure func dirName(fp string, k string) string = tm(dirP(k), nT(fp))
+// List(fp): key k contributes its own base name when it is fp itself, else - when its directory lies
+// at or below fp - the first element of what is left of it after fp
+//@ pure func inList(fp string, k string) bool = k == fp || termPrefix(fp, dirP(k))
+//@ pure func restName(fp string, k string) string = splitAt(trimP(trimP(k, fp), "/"), "/", 0)
+//@ func path.Dir
 //@   assumed
-//@   requires s != nil
+//@   ensures result == dirP(path)
+//@   modifies nothing
+//@ func path.Base
+//@   assumed
+//@   ensures result == baseP(path)
+//@   modifies nothing
+//@ func strings.HasPrefix
+//@   assumed
+//@   ensures result == hasPfx(s, prefix)
 //@   modifies nothing
 //@ func (*MapStore).ListDir
-//@   assumed
+//@   params s, filePath
+//@   results vs, err
 //@   requires s != nil
+//@   ensures [C13.listdir.sound] err == nil && forall i int :: 0 <= i && i < len(vs) ==> exists k string :: has(s.m, k) && inDir(filePath, s.m[k].Key) && vs[i] == dirName(filePath, s.m[k].Key)
+//@   ensures [C13.listdir.complete] forall k string :: has(s.m, k) && inDir(filePath, s.m[k].Key) ==> exists i int :: 0 <= i && i < len(vs) && vs[i] == dirName(filePath, s.m[k].Key)
 //@   modifies nothing
+//@   loop 0 invariant fresh(m)
+//@   loop 0 invariant fresh(prefix)
+//@   loop 0 invariant fresh(vs) && len(vs) == 0
+//@   loop 0 invariant len(prefix) == nT(filePath)
+//@   loop 0 invariant forall j int :: 0 <= j && j < len(prefix) ==> prefix[j] == tm(filePath, j)
+//@   loop 0 invariant forall n string :: has(m, n) ==> exists k string :: has(s.m, k) && inDir(filePath, s.m[k].Key) && n == dirName(filePath, s.m[k].Key)
+//@   loop 0 invariant forall k string :: rangeSeen(0, k) ==> has(s.m, k)
+//@   loop 0 invariant forall k string :: rangeSeen(0, k) && inDir(filePath, s.m[k].Key) ==> has(m, dirName(filePath, s.m[k].Key))
+//@   loop 1 invariant fresh(vs) && forall i int :: 0 <= i && i < len(vs) ==> has(m, vs[i])
+//@   loop 1 invariant forall n string :: rangeSeen(1, n) ==> has(m, n) && exists i int :: 0 <= i && i < len(vs) && vs[i] == n
+//@   loop 1 invariant forall n string :: has(m, n) ==> exists k string :: has(s.m, k) && inDir(filePath, s.m[k].Key) && n == dirName(filePath, s.m[k].Key)
+//@   loop 1 invariant forall k string :: has(s.m, k) && inDir(filePath, s.m[k].Key) ==> has(m, dirName(filePath, s.m[k].Key))
+//@ func (*MapStore).List
+//@   params s, filePath
+//@   results vs, err
+//@   requires s != nil
+//@   ensures [C13.list.sound] err == nil && forall i int :: 0 <= i && i < len(vs) ==> exists k string :: has(s.m, k) && inList(filePath, s.m[k].Key) && ((s.m[k].Key == filePath && vs[i] == baseP(filePath)) || (s.m[k].Key != filePath && vs[i] == restName(filePath, s.m[k].Key)))
+//@   ensures [C13.list.complete] forall k string :: has(s.m, k) && inList(filePath, s.m[k].Key) ==> exists i int :: 0 <= i && i < len(vs) && ((s.m[k].Key == filePath && vs[i] == baseP(filePath)) || (s.m[k].Key != filePath && vs[i] == restName(filePath, s.m[k].Key)))
+//@   modifies nothing
+//@   loop 0 invariant fresh(m)
+//@   loop 0 invariant fresh(prefix)
+//@   loop 0 invariant fresh(vs) && len(vs) == 0
+//@   loop 0 invariant len(prefix) == nT(filePath)
+//@   loop 0 invariant forall j int :: 0 <= j && j < len(prefix) ==> prefix[j] == tm(filePath, j)
+//@   loop 0 invariant forall n string :: has(m, n) ==> exists k string :: has(s.m, k) && inList(filePath, s.m[k].Key) && ((s.m[k].Key == filePath && n == baseP(filePath)) || (s.m[k].Key != filePath && n == restName(filePath, s.m[k].Key)))
+//@   loop 0 invariant forall k string :: rangeSeen(0, k) ==> has(s.m, k)
+//@   loop 0 invariant forall k string :: rangeSeen(0, k) && inList(filePath, s.m[k].Key) ==> (s.m[k].Key == filePath && has(m, baseP(filePath))) || (s.m[k].Key != filePath && has(m, restName(filePath, s.m[k].Key)))
+//@   loop 1 invariant fresh(vs) && forall i int :: 0 <= i && i < len(vs) ==> has(m, vs[i])
+//@   loop 1 invariant forall n string :: rangeSeen(1, n) ==> has(m, n) && exists i int :: 0 <= i && i < len(vs) && vs[i] == n
+//@   loop 1 invariant forall n string :: has(m, n) ==> exists k string :: has(s.m, k) && inList(filePath, s.m[k].Key) && ((s.m[k].Key == filePath && n == baseP(filePath)) || (s.m[k].Key != filePath && n == restName(filePath, s.m[k].Key)))
+//@   loop 1 invariant forall k string :: has(s.m, k) && inList(filePath, s.m[k].Key) ==> (s.m[k].Key == filePath && has(m, baseP(filePath))) || (s.m[k].Key != filePath && has(m, restName(filePath, s.m[k].Key)))
 
 // Lookup answers from the map: exists / get are exactly the map's content.
 //@ func (*LFSM).Lookup
@@ -184,6 +258,10 @@ package kv
 //@   ensures [C13.lookup.exists] typeIs(e, QueryExist) ==> err == nil && typeIs(res, bool) && asType(res, bool) == has(fsm.store.m, asType(e, QueryExist).Key)
 //@   ensures [C13.lookup.get] typeIs(e, QueryKey) && has(fsm.store.m, asType(e, QueryKey).Key) ==> err == nil && typeIs(res, Pair) && asType(res, Pair) == fsm.store.m[asType(e, QueryKey).Key]
 //@   ensures [C13.lookup.get] typeIs(e, QueryKey) && !has(fsm.store.m, asType(e, QueryKey).Key) ==> err != nil
+//@   ensures [C13.lookup.all] typeIs(e, QueryAll) && err == nil ==> forall i int :: 0 <= i && i < len(asType(res, []Pair)) ==> pmatch(asType(e, QueryAll).Pattern, asType(res, []Pair)[i].Key) && exists k string :: has(fsm.store.m, k) && fsm.store.m[k] == asType(res, []Pair)[i]
+//@   ensures [C13.lookup.all] typeIs(e, QueryAll) && err == nil ==> forall k string :: has(fsm.store.m, k) && pmatch(asType(e, QueryAll).Pattern, fsm.store.m[k].Key) ==> exists i int :: 0 <= i && i < len(asType(res, []Pair)) && asType(res, []Pair)[i] == fsm.store.m[k]
+//@   ensures [C13.lookup.types] (typeIs(e, QueryExist) ==> typeIs(res, bool)) && (typeIs(e, QueryKey) ==> typeIs(res, Pair)) && (typeIs(e, QueryAll) ==> typeIs(res, []Pair))
+//@   ensures [C13.lookup.types] (typeIs(e, QueryAllValues) || typeIs(e, QueryList) || typeIs(e, QueryListDir)) ==> typeIs(res, []string)
 //@   modifies nothing
 
 // ---- snapshots: image = json of the map; restore = exactly the image
@@ -256,6 +334,100 @@ package kv
 //@   ensures err != kv.ErrVersionMismatch
 //@   modifies *asType(v, *kv.Pair)
 
+// reads go to the local replica as stale reads: the query carries the caller's argument and goes to
+// the store's own shard, and the answer handed back is the state machine's. The answer's dynamic
+// type per query type is what (*LFSM).Lookup returns ([C13.lookup.types], verified above); that
+// dragonboat routes a stale read to Lookup is ASSUMED.
+//@ ghostfield volatile any.qShard uint64
+//@ ghostfield volatile any.qQuery Iface
+//@ ghostfield volatile any.qAns Iface
+//@ func dragonboat.(*NodeHost).StaleRead<kv.QueryKey>
+//@   assumed
+//@   params nh, shardID, query
+//@   results v, err
+//@   ensures world.qShard == shardID && world.qQuery == query && world.qAns == v
+//@   ensures typeIs(v, kv.Pair)
+//@   modifies world.qShard, world.qQuery, world.qAns
+//@ func dragonboat.(*NodeHost).StaleRead<kv.QueryExist>
+//@   assumed
+//@   params nh, shardID, query
+//@   results v, err
+//@   ensures world.qShard == shardID && world.qQuery == query && world.qAns == v
+//@   ensures typeIs(v, bool)
+//@   modifies world.qShard, world.qQuery, world.qAns
+//@ func dragonboat.(*NodeHost).StaleRead<kv.QueryAll>
+//@   assumed
+//@   params nh, shardID, query
+//@   results v, err
+//@   ensures world.qShard == shardID && world.qQuery == query && world.qAns == v
+//@   ensures typeIs(v, []kv.Pair)
+//@   modifies world.qShard, world.qQuery, world.qAns
+//@ func dragonboat.(*NodeHost).StaleRead<kv.QueryAllValues>
+//@   assumed
+//@   params nh, shardID, query
+//@   results v, err
+//@   ensures world.qShard == shardID && world.qQuery == query && world.qAns == v
+//@   ensures typeIs(v, []string)
+//@   modifies world.qShard, world.qQuery, world.qAns
+//@ func dragonboat.(*NodeHost).StaleRead<kv.QueryList>
+//@   assumed
+//@   params nh, shardID, query
+//@   results v, err
+//@   ensures world.qShard == shardID && world.qQuery == query && world.qAns == v
+//@   ensures typeIs(v, []string)
+//@   modifies world.qShard, world.qQuery, world.qAns
+//@ func dragonboat.(*NodeHost).StaleRead<kv.QueryListDir>
+//@   assumed
+//@   params nh, shardID, query
+//@   results v, err
+//@   ensures world.qShard == shardID && world.qQuery == query && world.qAns == v
+//@   ensures typeIs(v, []string)
+//@   modifies world.qShard, world.qQuery, world.qAns
+
+//@ func (*RaftStore).Get
+//@   params r, key
+//@   results p, err
+//@   requires r != nil && r.NodeHost != nil
+//@   ensures [C13.client.get+C14+C15] world.qShard == r.ClusterID && typeIs(world.qQuery, QueryKey) && asType(world.qQuery, QueryKey).Key == key
+//@   ensures [C13.client.get+C14+C15] err == nil ==> p == asType(world.qAns, Pair)
+//@   modifies nothing
+//@ func (*RaftStore).Exists
+//@   params r, key
+//@   results ok, err
+//@   requires r != nil && r.NodeHost != nil
+//@   ensures [C13.client.exists+C14+C15] world.qShard == r.ClusterID && typeIs(world.qQuery, QueryExist) && asType(world.qQuery, QueryExist).Key == key
+//@   ensures [C13.client.exists+C14+C15] err == nil ==> ok == asType(world.qAns, bool)
+//@   ensures err != nil ==> !ok
+//@   modifies nothing
+//@ func (*RaftStore).GetAll
+//@   params r, pattern
+//@   results ps, err
+//@   requires r != nil && r.NodeHost != nil
+//@   ensures [C13.client.getall+C14] world.qShard == r.ClusterID && typeIs(world.qQuery, QueryAll) && asType(world.qQuery, QueryAll).Pattern == pattern
+//@   ensures [C13.client.getall+C14] err == nil ==> ps == asType(world.qAns, []Pair)
+//@   modifies nothing
+//@ func (*RaftStore).GetAllValues
+//@   params r, pattern
+//@   results vs, err
+//@   requires r != nil && r.NodeHost != nil
+//@   ensures [C13.client.getallvalues+C14] world.qShard == r.ClusterID && typeIs(world.qQuery, QueryAllValues) && asType(world.qQuery, QueryAllValues).Pattern == pattern
+//@   ensures [C13.client.getallvalues+C14] err == nil ==> vs == asType(world.qAns, []string)
+//@   modifies nothing
+//@ func (*RaftStore).List
+//@   params r, filePath
+//@   results vs, err
+//@   requires r != nil && r.NodeHost != nil
+//@   ensures [C13.client.list] world.qShard == r.ClusterID && typeIs(world.qQuery, QueryList) && asType(world.qQuery, QueryList).Path == filePath
+//@   ensures [C13.client.list] err == nil ==> vs == asType(world.qAns, []string)
+//@   modifies nothing
+//@ func (*RaftStore).ListDir
+//@   params r, filePath
+//@   results vs, err
+//@   requires r != nil && r.NodeHost != nil
+//@   ensures [C13.client.listdir] world.qShard == r.ClusterID && typeIs(world.qQuery, QueryListDir) && asType(world.qQuery, QueryListDir).Path == filePath
+//@   ensures [C13.client.listdir] err == nil ==> vs == asType(world.qAns, []string)
+//@   modifies nothing
+
 //@ func (*RaftStore).Set
 //@   params r, key, value, ver
 //@   results p, err
@@ -295,6 +467,7 @@ package kv
 //@ func strings.Split
 //@   assumed
 //@   ensures fresh(result) && splitSrc(result) == s && splitSep(result) == sep      // the result remembers what it was split from
+//@   ensures len(result) == nsplit(s, sep) && len(result) >= 1 && forall j int :: 0 <= j && j < len(result) ==> result[j] == splitAt(s, sep, j)
 //@   modifies nothing
 //@ func strings.TrimPrefix
 //@   assumed
@@ -302,6 +475,7 @@ package kv
 //@   modifies nothing
 //@ func pathToTerms
 //@   ensures [C13.list.clean] splitSrc(result) == cleanP(filePath) && splitSep(result) == "/"
+//@   ensures [C13.list.clean] fresh(result) && len(result) == nT(filePath) && forall j int :: 0 <= j && j < len(result) ==> result[j] == tm(filePath, j)
 //@   modifies nothing
 //@ func stripKey
 //@   ensures [C13.list.strip] result == trimP(trimP(key, prefix), "/")
